@@ -132,3 +132,10 @@ claim(
     "That the scanners accept exactly the grammar and denote the right value for EVERY program (language equivalence with a reference parser/evaluator) is not a shape property and is NOT decided.",
     "slice-complementarity and prefix-accumulator rules on returns; loop-body path enumeration for quote guards and one-value-per-iteration; shape matching of interpretation and registry wrappers",
 )
+claim(
+    "C17",
+    "proof",
+    "Totality of the query front-end over all strings, decided without running it: every explicit raise in scope (query2.py, the two wrappers, the _verify helpers, the three bucket-access functions) is a query error by the class table of exceptions.py, the two foreign raises are shown unreachable (exhaustive overrides; datastore[x] dominated by the existence check); every may-raise site - constant-index subscript, int(), .check/.parse on a possibly-None class - is proved safe by an abstract interpretation from query() with an arbitrary string (string-shape domain {non-empty, right-stripped, all-decimal, class identity, ...} with disjunctive callee summaries); dict lookups and args[i] are dominated by their guards and the registry call's TypeError is translated; every while loop shrinks its string on each non-raising iteration and recursion descends on strict substrings.",
+    "Outside 'parsing or name/arity/type resolution' and NOT decided: exceptions raised inside built-in bodies (bad regex, missing key in simplify_string, iso8601.ParseError in query_bucket_eventcount after a query re-binds STARTTIME), RecursionError on pathological nesting. Trusted: str.strip/slice/find and int() behave as the abstract domain models them; C11-PARTITION for the progress argument.",
+    "abstract interpretation (disjunctive must-fact domain, callee summaries per abstract argument, loop fixpoints with liveness pruning) + exception class table + CFG dominance / edge-filtered reachability for guards",
+)
